@@ -79,7 +79,7 @@ def lexer_allowed_pairs(repo):
     """The multi-character comment pairs lex_multichar_comments implements: the literal table T of the
     `<pair> not in T` test that guards its `raise NotImplementedError` (a local or a module constant)."""
     import ast
-    fn = repo.function("lexer", "lex_multichar_comments")
+    fn = repo.full_function("lexer", "lex_multichar_comments")
     parents = {}
     for n in ast.walk(fn):
         for c in ast.iter_child_nodes(n):
